@@ -6,7 +6,7 @@
 From Emmet Require Import lib.Base model.MarkupTokenizer model.MarkupParser model.MarkupConvert
      model.MarkupResolve model.OutStream model.FormatHtml model.FormatIndent model.MarkupExpand.
 From Emmet Require Import proofs.ParserSpine proofs.ParserGroups proofs.TokenizeRender proofs.NumberingProofs
-     proofs.ConvertProofs proofs.HtmlEvents proofs.ExpandTree proofs.ExpandFlat.
+     proofs.ConvertProofs proofs.HtmlEvents proofs.ExpandJsx proofs.ExpandTree proofs.ExpandFlat.
 Local Open Scope nat_scope.
 
 (* ================================================================ source-level syntax *)
@@ -192,14 +192,14 @@ Proof.
 Qed.
 
 (* ================================================================ the tokens form a statement of the parser theorem *)
-Lemma item_block it pos : gblock_ok false (item_toks it pos) (item_leaf it pos).
+Lemma item_block jsx it pos : gblock_ok jsx (item_toks it pos) (item_leaf it pos).
 Proof.
   destruct it as [n [ds|]]; unfold item_toks, item_leaf; cbn [fst snd rep_toks_at rep_of_digits].
-  - eapply gblock_name_rep; reflexivity.
-  - eapply gblock_name; reflexivity.
+  - eapply gblock_name_rep_j; reflexivity.
+  - eapply gblock_name_j; reflexivity.
 Qed.
 
-Theorem lay2_gflat : forall xs pos, gflat false (gs (fst (lay2 pos xs))) (snd (lay2 pos xs)).
+Theorem lay2_gflat jsx : forall xs pos, gflat jsx (gs (fst (lay2 pos xs))) (snd (lay2 pos xs)).
 Proof.
   induction xs as [|[it o] xs' IH]; intros pos; [apply gf_nil|].
   destruct xs' as [|y xs''].
@@ -435,7 +435,7 @@ Proof.
     - apply good_name_ok. unfold name_fine in Hf. apply andb_prop in Hf. destruct Hf as [Hf _]. apply andb_prop in Hf. apply Hf.
     - destruct (snd it); [apply digits_okb_ok, Hd|exact I]. }
   pose proof (toks_render2 xs 0 None Hok) as Htok. fold (tokenize (render2 xs)) in Htok.
-  destruct (parse_gflat false _ _ (lay2_gflat xs 0)) as [Hp Hm].
+  destruct (parse_gflat (mc_jsx (xc_m x)) _ _ (lay2_gflat (mc_jsx (xc_m x)) xs 0)) as [Hp Hm].
   rewrite denoteG_gs in Hm.
   destruct (lay2_marks (name_fine x) xs 0 0 Hfine) as [Hmarks Hden].
   assert (Hm' : preML 0 (closed (grun (gs (fst (lay2 0 xs))) root0)) =
